@@ -1712,6 +1712,11 @@ class PX:
     def subscript(self, b, k, fr, e=None):
         if isinstance(k, slice) and isinstance(b, (list, tuple, str, bytes, bytearray)):
             return b[k]
+        if type(b).__module__ == "re" and type(b).__name__ == "Match" and isinstance(k, (int, str)) and not isinstance(k, bool):
+            try:
+                return b[k]
+            except (IndexError, KeyError):
+                raise Exc("IndexError", ("no such group",), origin=_text(e) if e is not None else "match[]")
         if isinstance(b, Sym):
             return self.sym_index(b, k)
         if isinstance(b, Obj):
@@ -2334,6 +2339,12 @@ class PX:
                             return r
                         if r is None:
                             raise Exc("ValueError", (av,), origin=text)
+                    # zigpy's fixed-width enums (trusted base) make up a member for an undefined value; an enum built directly on the
+                    # standard library's Enum / IntEnum / IntFlag raises ValueError instead
+                    bases_ = [b_.rsplit(".", 1)[-1] for b_ in cls.base_names()[1:]]
+                    if bases_ and all(b_ in ("Enum", "IntEnum", "StrEnum", "Flag", "int", "str", "object") for b_ in bases_) and any(
+                            b_ in ("Enum", "IntEnum") for b_ in bases_):
+                        raise Exc("ValueError", (f"{av} is not a valid {cls.name}",), origin=text)
                     return Member(cls, f"undefined_0x{av:02x}", av)
                 return Sym(f"{cls.name}({_short(a)})")
         names = self.hier
